@@ -3,7 +3,7 @@ kernel (slots, coordinates, grid geometry, pixel positions) and what each render
 per-layer depth reduction, thickness scaling, NaN mask) are read off the fold and compared with the specification."""
 from __future__ import annotations
 
-from ..models import ModelEval, PyObj, Raised
+from ..models import ModelEval, PyObj, Raised, explore
 from ..peval import Model, Unsupported, ProgramRaised
 from ..poly import Poly
 from ..source import AnalysisError
@@ -186,15 +186,31 @@ def thorough_scenarios():
 def check_map(run, tree, aspects=("slots", "rendered", "geometry", "inputs"), depth_axis=0, scenarios=None):
     fi = tree.func(MAP)
     run.analysed(fi)
+    # every scenario is explored under both answers of each test the abstraction does not decide (`if mask.all():`, `if n == sel.size:`)
+    expanded = []
     for label, thick, ops, reso, *more in (scenarios or SCENARIOS):
-        layer_ops = [ops[0], ops[1], "max"]
-        try:
+        def attempt(thick=thick, ops=ops, reso=reso, more=more):
             reso_in = dict(reso)
             try:
-                rec, out, layers, hooks = build(tree, thick, ops, resolution=reso_in, **(more[0] if more else {}))
+                return ("ok", build(tree, thick, ops, resolution=reso_in, **(more[0] if more else {})), reso_in)
             except (Raised, ProgramRaised) as e:
-                run.violated("%s[%s]" % (MAP, label), fi.where(), "raises %s" % e, "map() of a scalar, a vector and another scalar layer")
+                return ("raised", e, reso_in)
+        try:
+            branches = explore(attempt)
+        except ERR as e:
+            run.unresolved("%s[%s]" % (MAP, label), fi.where(), "cannot fold: %s" % e)
+            continue
+        for assume, res in branches:
+            suffix = "" if not assume else "; assuming " + ", ".join("%s%s" % ("" if v else "NOT ", k.split("(")[0][:40].strip() + " " + k.rsplit("#", 1)[-1]) for k, v in sorted(assume.items()))
+            expanded.append((label + suffix, thick, ops, reso, more, res))
+    for label, thick, ops, reso, more, res in expanded:
+        layer_ops = [ops[0], ops[1], "max"]
+        try:
+            reso_in = res[2]
+            if res[0] == "raised":
+                run.violated("%s[%s]" % (MAP, label), fi.where(), "raises %s" % res[1], "map() of a scalar, a vector and another scalar layer")
                 continue
+            rec, out, layers, hooks = res[1]
             kw = rec.kernel or {}
             cv = kw.get("cell_values")
             elems = [origin_of(e) for e in cv.elems] if isinstance(cv, Stack) else []
